@@ -79,7 +79,7 @@ def generate(ctx):
            ("1, 2", "1", 6 if quick else 7, "deleg"),     # validator record with two delegators
            ("3", "1", 5 if quick else 6, "life"),         # life cycle of an account that does not exist initially
            ("1", "1", 5 if quick else 6, "life"),         # life cycle of a funded account
-           ("1", "1", 6 if quick else 8, "store"),        # one storage slot across transaction boundaries
+           ("1", "1", 6 if quick else 7, "store"),        # one storage slot across transaction boundaries
            ("1", "1", 6 if quick else 7, "side"),         # logs, refund counter, preimages
            ("1", "1, 2, 3", 7 + (4 if quick else 5), "deleg3")]  # one delegator, three validators, populated prelude (7 ops)
     for accts, vals, d, alpha in g1s:
@@ -104,36 +104,61 @@ def generate(ctx):
     return behs, m
 
 
+CHUNK = 30000   # behaviours per driver/monitor run: keeps each trace (~250k events) within what TLC's JSON reader handles
+
+
 def judge(ctx, behs, selftest=False):
-    bpath = ctx.path("behaviours.ndjson")
-    vlib.write_ndjson(bpath, behs)
-    trace = ctx.path("trace.ndjson")
-    info = ctx.drive("journal", trace, behaviours=bpath)
+    """Drive the behaviours through the real StateDB and judge the recorded traces, in chunks run 4 at a time."""
+    import concurrent.futures
     ctx.cov["traces_validated_against_impl"] += len(behs)
     ctx.cov["evaluations"] += len(behs)
     ctx.cov["distinct_nontrivial"] += len({json.dumps(b, sort_keys=True) for b in behs if nontrivial(b)})
-    # T (verdict): property-layer monitor
-    vlib.monitor(ctx, "Journal_Mon", "Journal_Mon.cfg", trace, behaviours=bpath, replay_meta={"driver": "journal"})
-    # an abort of the process inside a behaviour is a failure of "reverting a valid snapshot never fails"
-    for a in info["aborts"]:
-        ctx.report("C09/NoPanic/process_abort", vlib.save_behaviour_replay(ctx, "C09/NoPanic/process_abort", bpath, a["b"], {}), a)
-    # T (drift): conformance to the design layer
-    conf = ctx.tlc("Journal_Trace", "Journal_Trace.cfg", name="Conf", files={"trace.ndjson": trace}, workers=1,
-                   timeout=1500, count=False, xss="256m")
-    acc = [v for v in conf.printed if isinstance(v, dict) and v.get("kind") == "ACCEPTED"]
-    rej = [v for v in conf.printed if isinstance(v, dict) and v.get("kind") == "REJECTED"]
-    if acc:
-        ctx.cov["conformance"] = "accepted %d events" % acc[0]["events"]
-    else:
-        ctx.cov["drift_events"] += 1
-        ctx.cov["conformance"] = "rejected: %s" % (json.dumps(rej[0])[:600] if rej else (conf.error or conf.violated or "no verdict"))
-        print("DRIFT: property=C09 the real StateDB left the design layer of Journal.tla: %s" % ctx.cov["conformance"], flush=True)
-    return trace
+    ctx.build_harness("journal")
+    chunks = [behs[k:k + CHUNK] for k in range(0, len(behs), CHUNK)] or [[]]
+
+    def one(k):
+        part = chunks[k]
+        tag = "" if len(chunks) == 1 else "_%d" % k
+        bpath = ctx.path("behaviours%s.ndjson" % tag)
+        vlib.write_ndjson(bpath, part)
+        trace = ctx.path("trace%s.ndjson" % tag)
+        info = ctx.drive("journal", trace, behaviours=bpath)
+        # T (verdict): property-layer monitor
+        vlib.monitor(ctx, "Journal_Mon", "Journal_Mon.cfg", trace, name="Journal_Mon" + tag, behaviours=bpath,
+                     replay_meta={"driver": "journal"}, timeout=1500)
+        # an abort of the process inside a behaviour is a failure of "reverting a valid snapshot never fails"
+        for a in info["aborts"]:
+            ctx.report("C09/NoPanic/process_abort", vlib.save_behaviour_replay(ctx, "C09/NoPanic/process_abort", bpath, a["b"], {}), a)
+        # T (drift): conformance to the design layer
+        conf = ctx.tlc("Journal_Trace", "Journal_Trace.cfg", name="Conf" + tag, files={"trace.ndjson": trace}, workers=1,
+                       timeout=1500, count=False, xss="256m")
+        acc = [v for v in conf.printed if isinstance(v, dict) and v.get("kind") == "ACCEPTED"]
+        rej = [v for v in conf.printed if isinstance(v, dict) and v.get("kind") == "REJECTED"]
+        return trace, (acc[0]["events"] if acc else None), (json.dumps(rej[0])[:600] if rej else (conf.error or conf.violated or "no verdict"))
+
+    accepted, first_trace = 0, None
+    with concurrent.futures.ThreadPoolExecutor(max_workers=4) as ex:
+        for trace, acc, why in ex.map(one, range(len(chunks))):
+            first_trace = first_trace or trace
+            if acc is None:
+                ctx.cov["drift_events"] += 1
+                ctx.cov["conformance"] = "rejected: %s" % why
+                print("DRIFT: property=C09 the real StateDB left the design layer of Journal.tla: %s" % ctx.cov["conformance"], flush=True)
+            else:
+                accepted += acc
+    if not ctx.cov["drift_events"]:
+        ctx.cov["conformance"] = "accepted %d events" % accepted
+    return first_trace
 
 
 def selftest(ctx, trace):
     """Binding self-test: corrupting one recorded field must make the conformance spec reject."""
-    ev = vlib.read_ndjson(trace)
+    ev = []
+    with open(trace) as fh:
+        for line in fh:
+            ev.append(json.loads(line))
+            if len(ev) >= 2000:
+                break
     for i, e in enumerate(ev):
         if e.get("ev") == "AddBalance" and "m" in e:
             e["m"]["bal"][0] += 1
